@@ -118,6 +118,17 @@ def segments_stream(ck, recs):
             continue
         pq = pqs[-1]
         segs = []
+        bare = []
+
+        def bare_columns(p):
+            # an aggregating SELECT may project group keys and aggregate results only (a bare column next to GROUP BY is
+            # an arbitrary row's value on SQLite and an error on stricter engines)
+            ag = [t["Aggregate"] for t in p if isinstance(t, dict) and "Aggregate" in t]
+            sl = [t["Select"] for t in p if isinstance(t, dict) and "Select" in t]
+            if not ag or not sl:
+                return []
+            allowed = set(ag[0].get("partition", [])) | set(ag[0].get("compute", []))
+            return [c for c in sl[-1] if c not in allowed]
 
         def kinds(p):
             # the final PQ has its ORDER BY re-emitted by infer_sorts after takes/unions: the position of a
@@ -129,10 +140,18 @@ def segments_stream(ck, recs):
             for v in k.values():
                 if isinstance(v, dict) and "AtomicPipeline" in v:
                     segs.append(kinds(v["AtomicPipeline"]))
+                    bare += bare_columns(v["AtomicPipeline"])
         mr = pq.get("main_relation", {})
         if "AtomicPipeline" in mr:
             segs.append(kinds(mr["AtomicPipeline"]))
+            bare += bare_columns(mr["AtomicPipeline"])
         segs_by_src[s] = segs
+        ck.count("aggregating-selects", s)
+        if bare:
+            rec = seen[s]
+            fid = "F44-grouped-aggregate-keeps-sort" if rec["program"].meta.get("agg_in_group_not_last") else None
+            ck.disagreement("an aggregating SELECT projects a column that is neither a group key nor an aggregate: %s" % s.replace("\n", " | ")[:200],
+                            {"prql": s, "sql": rec.get("sql"), "bare_cids": bare}, lambda c, f=fid: f)
         for sg in segs:
             allsegs.append((s, sg))
     uniq = sorted({tuple(sg) for _, sg in allsegs})
@@ -206,6 +225,11 @@ def run():
         top = max(x[0] for x in inst["t"])
         inst["t"] = inst["t"] + [[top + 1 + i] + list(r[1:]) for i, r in enumerate(inst["t"][:3])]   # same values, fresh ids
         cases.append((pg, [inst]))
+    for _ in range(ck.n(6, 30) * (3 if broken else 1)):         # two sort|take blocks in front of a group (F37)
+        pg = g.program(n_steps=5, force=["sort", "take", "sort", "take", rng.choice(["group_win", "group_take", "group_agg"])])
+        cases.append((pg, [P.gen_instance(rng, max_rows=7, min_rows=6)]))
+    for _fid, pg, inst in E.directed_known(rng):                # one hand-built program per open finding the streams seldom hit
+        cases.append((pg, [inst or P.gen_instance(rng, max_rows=7, min_rows=5)]))
     recs3 = E.run_stream(ck, "directed", cases, targets, judge_rows, classify)
     segments_stream(ck, recs3)
 
